@@ -423,26 +423,60 @@ def rw_R2b(rf, a, b):
 
 
 CRATE_MODS = {"request", "response", "common", "util", "client"}
-DURATION_IDENTS = {"duration", "sleep_time", "timeout"}
+
+
+def _recv_chain(toks, sg, k):
+    """sg[k] is the `.` before a method name: return the index (into sg) of the first token of the receiver when it is a
+    plain place expression `ident(.ident)*`, else None"""
+    j = k - 1
+    if j < 0 or toks[sg[j]].kind != "ident":
+        return None
+    while j - 2 >= 0 and toks[sg[j - 1]].text == "." and toks[sg[j - 2]].kind == "ident":
+        j -= 2
+    if j - 1 >= 0 and toks[sg[j - 1]].text in (".", ")", "]", "?", "::"):
+        return None
+    return j
 
 
 def rw_R18(rf, a, b):
-    """`d1 > d2` / `d1 - d2` on std::time::Duration locals -> verif_duration_gt(&d1, &d2) / verif_duration_sub(d1, d2)
-    (vstd has no arithmetic spec for Duration and the orphan rule forbids adding one; same-body wrappers)"""
+    """ghost clock threading: `Instant::now()` -> verif_now(Tracked(&mut verif_clk)); `<place>.elapsed()` ->
+    verif_elapsed(&<place>, Tracked(&mut verif_clk)); `<place>.wait_timeout(g, d)` -> verif_wait_timeout(&<place>, g, d,
+    Tracked(&mut verif_clk)).  The wrappers (prelude/time.rs) call the same std function; the extra argument is ghost
+    (erased).  The function under contract declares `verif_clk` at its entry."""
     toks, sg, out = rf.toks, _sig(rf.toks, a, b), []
+    clk = "Tracked(&mut verif_clk)"
     for k, i in enumerate(sg):
-        if toks[i].text in (">", "-") and 0 < k < len(sg) - 1:
-            l, r = toks[sg[k - 1]], toks[sg[k + 1]]
-            if l.kind == "ident" and r.kind == "ident" and l.text in DURATION_IDENTS and r.text in DURATION_IDENTS \
-                    and toks[sg[k - 2]].text not in (".", "-") and toks[sg[k + 2]].text not in (".", "(", ">"):
-                if toks[i].text == ">":
-                    new = "verif_duration_gt(&%s, &%s)" % (l.text, r.text)
-                else:
-                    new = "verif_duration_sub(%s, %s)" % (l.text, r.text)
-                out.append((Edit(sg[k - 1], sg[k + 1] + 1, new, ("gen", "R18")), "R18 %s:%d `%s %s %s` -> %s" % (rf.rel, toks[i].line, l.text, toks[i].text, r.text, new)))
+        t = toks[i]
+        if t.kind != "ident":
+            continue
+        nxt = [toks[x].text for x in sg[k + 1:k + 6]]
+        if t.text == "Instant" and nxt[:5] == [":", ":", "now", "(", ")"]:
+            out.append((Edit(i, sg[k + 5] + 1, "verif_now(%s)" % clk, ("gen", "R18")), "R18 %s:%d `Instant::now()` -> verif_now(ghost clock)" % (rf.rel, t.line)))
+        elif t.text == "elapsed" and k > 0 and toks[sg[k - 1]].text == "." and nxt[:2] == ["(", ")"]:
+            j = _recv_chain(toks, sg, k - 1)
+            if j is None:
+                continue
+            recv = L.text(toks, sg[j], sg[k - 1]).strip()
+            out.append((Edit(sg[j], sg[k + 2] + 1, "verif_elapsed(&%s, %s)" % (recv, clk), ("gen", "R18")), "R18 %s:%d `%s.elapsed()` -> verif_elapsed(ghost clock)" % (rf.rel, t.line, recv)))
+        elif t.text == "wait_timeout" and k > 0 and toks[sg[k - 1]].text == "." and nxt[:1] == ["("]:
+            j = _recv_chain(toks, sg, k - 1)
+            if j is None:
+                continue
+            recv = L.text(toks, sg[j], sg[k - 1]).strip()
+            close = L.match_close(toks, sg[k + 1])
+            out.append((Edit(sg[j], sg[k + 1] + 1, "verif_wait_timeout(&%s, " % recv, ("gen", "R18")), "R18 %s:%d `%s.wait_timeout(..)` -> verif_wait_timeout(.., ghost clock)" % (rf.rel, t.line, recv)))
+            out.append((Edit(close, close, ", %s" % clk, ("gen", "R18")), None))
     return out
 
 
+
+
+def _ghost_names(lines):
+    """ghost variables that the template lines declare or assign (bookkeeping attached to an anchor)"""
+    txt = "\n".join(l for l, _ in lines)
+    names = set(re.findall(r"let\s+ghost\s+(?:mut\s+)?([A-Za-z_][A-Za-z0-9_]*)", txt))
+    names |= set(re.findall(r"(?:proof\s*\{|;)\s*([A-Za-z_][A-Za-z0-9_]*)\s*=[^=]", txt))
+    return names
 
 def rw_R19(rf, a, b):
     """Box::new(Cursor::new(x)) / Box::new(io::empty()) as body readers -> verif_cursor(x) / verif_empty(): local opaque
@@ -660,6 +694,7 @@ class Unit:
         self.includes = []
         self.assumed = []
         self.required = []
+        self.lost_ghost = {}   # fn -> ghost variables whose bookkeeping was attached to an optional anchor that is gone
 
     # -- template parsing --
     def build(self, vacuity=False):
@@ -1048,7 +1083,10 @@ class Unit:
                 ao = [x for x in range(len(sgb)) if _seq_at(toks, sgb, x, aw)]
                 occ = [x for x in occ if ao and x > ao[0]] if ao else []
             if optional and (k < 1 or k > len(occ)):
-                continue   # the guarded statement is gone: the function's ensures still stand
+                # the guarded statement is gone: the function's ensures still stand; obligations that speak about ghost
+                # variables maintained here cannot be decided any more (never an alarm)
+                self.lost_ghost.setdefault(qual, set()).update(_ghost_names(lines))
+                continue
             if k < 1 or k > len(occ):
                 raise Undecided("lost anchor: occurrence %d of `%s` in %s (%d found)" % (k, tok, qual, len(occ)))
             x = occ[k - 1]
@@ -1121,6 +1159,7 @@ class Unit:
             words = [t.text for t in L.tokenize(tok) if t.kind != "ws"]
             occ = [x for x in range(len(sgb)) if _seq_at(toks, sgb, x, words)]
             if optional and (k < 1 or k > len(occ)):
+                self.lost_ghost.setdefault(qual, set()).update(_ghost_names(lines))
                 continue
             if k < 1 or k > len(occ):
                 raise Undecided("lost anchor: occurrence %d of `%s` in %s (%d found)" % (k, tok, qual, len(occ)))
